@@ -323,6 +323,16 @@ def obligations(tier):
                             (lambda vs=vs, ps=ps, darg=darg: symmetric_extension_hierarchy([np.array(v) for v in vs], ps, 1, darg)),
                             ref_hierarchy, instance=(vs, pp, dims, 1), value_of=lambda r: float(r))
                 obs.append(t)
+    # kets stored as 1-D arrays (the form ppt_distinguishability accepts): same program as for column kets
+    done = 0
+    for name, vs, ps, dims in instances(tier):
+        if all(np.ndim(v) == 2 and np.shape(v)[1] == 1 for v in vs) and done < 2:
+            done += 1
+            pp = ps if ps is not None else [1.0 / len(vs)] * len(vs)
+            t = SdpTask("symmetric_extension_hierarchy.program_is_textbook_program", {"instance": name, "level": 1, "dim": dims, "kets_stored_as": "1-D arrays"},
+                        (lambda vs=vs, ps=ps, dims=dims: symmetric_extension_hierarchy([np.array(v).reshape(-1) for v in vs], ps, 1, list(dims))),
+                        ref_hierarchy, instance=(vs, pp, dims, 1), value_of=lambda r: float(r), replay_oracle=ppt_value, tol=5e-4)
+            obs.append(t)
     obs.append(ob_list_unchanged("column kets", 4))
     obs.append(ob_list_unchanged("density matrices", 4))
     obs.append(ob_list_unchanged("column kets", 6))
